@@ -51,6 +51,31 @@ CHECKS = {
          "probe grid, std types, user options minus hyd_flag, name/sector/component list). Three nets (heating loop, branched water net); "
          "quick samples the exhaustive 3-op histories (640) and adds 180 simulated 5-op histories per seed.",
     technique="TLA+ history machine (MC_Hist) + TLC-generated call histories replayed into pandapipes + digest trace validation (Trace_Hist)"),
+ "C16": dict(
+    level="model_checking",
+    text="create_* calls are actions of the TLA+ editing machine MC_Edit with explicit guards (references exist, index free, pipe attached for "
+         "junction-pipe valves, heat-consumer specification, geodata shape) and effects; TLC checks that every action keeps the abstract net "
+         "referentially intact and emits every argument combination (valid and invalid, single and bulk with scalar / per-row / partially-null "
+         "parameters) on three base nets; each is replayed into the real create functions and Trace_Edit decides: refused <=> guard false, "
+         "refusal atomic, exactly the requested rows with unique labels, other rows untouched, bulk = one-by-one (value digest).",
+    design_ref="DESIGN.md 5 C16",
+    note="Trusted: row identity via the name column, `rest` digests of the remaining columns (None/NaN unified). Covered functions: junction(s), "
+         "pipe(s)_from_parameters, valve(s), sink(s), ext_grid, flow_control(s), heat_exchanger(s), heat_consumer; argument positions: index, every "
+         "junction/pipe reference, et, geodata, heat-consumer spec. Not covered yet: documented default values per column, std-type vs parameter "
+         "creation, remaining create functions (pump, compressor, circulation pumps, pressure control, mass storage, source).",
+    technique="TLA+ editing machine (PPEdit/MC_Edit) model-checked with TLC + TLC-generated calls replayed into create_* + trace validation (Trace_Edit)"),
+ "C17": dict(
+    level="model_checking",
+    text="reindex_*, create_continuous_*_index, drop_junctions, drop_elements_at_junctions, drop_pipes, fuse_junctions and select_subnet are "
+         "functions on abstract nets in PPEdit with a typed reference map (a valve's element is a junction or a pipe); TLC checks RefOK / unique "
+         "labels / identity preservation for every operation and argument on three base nets (pipe labels colliding with junction labels, "
+         "junction-pipe valves, remote pressure controller, circulation pump), and every operation is replayed into the real toolbox: Trace_Edit "
+         "demands exact agreement for relabelling (incl. stored results following), no dangling reference and untouched unrelated rows otherwise.",
+    design_ref="DESIGN.md 5 C17",
+    note="Trusted: projection harness/edit.project (identity in name column, rest/rtag digests). Exhaustive over all single operations of the model "
+         "(about 750 incl. all lookups with <=2 keys into 6 targets), plus seeded 3-op histories mixing creation and tools. The subnet-reproduces-"
+         "results clause is not yet included.",
+    technique="TLA+ editing machine (PPEdit/MC_Edit) model-checked with TLC + TLC-generated tool calls replayed into pandapipes.toolbox + trace validation (Trace_Edit)"),
 }
 NA_REASON = "check not built yet in this round (work in progress; see DESIGN.md section 5 for the planned decision procedure)"
 
